@@ -1,6 +1,10 @@
 #!/bin/bash
-# Determinism self-test: every check's first N jobs, executed in separate processes and under
-# different seeds; outputs (per-job trace digests) must be identical run to run.
+# Determinism self-test.
+#  1. every check's first N jobs, executed in separate processes and under different seeds; the
+#     outputs (per-job trace digests) must be identical run to run;
+#  2. whole batches of a few checks at several worker counts: the order-independent batch digest
+#     (job, sub-run, transport operations, bytes each way, callbacks, replies, how the run ended)
+#     must not depend on the number of workers or on how they were scheduled.
 set -u
 cd "$(dirname "$0")/.." || exit 2
 N=${1:-40}
@@ -14,6 +18,18 @@ for seed in 20260104 1 987654321; do
     echo "DETERMINISM MISMATCH for seed $seed"; diff "$T/a.$seed" "$T/b.$seed" | head; rc=2
   fi
   echo "seed $seed: $(wc -l < "$T/a.$seed") job digests identical across two processes"
+done
+for id in C03 C08 C13 C18 C19 C20; do
+  runs=10000; [ "$id" = C19 ] && runs=6
+  ref=""
+  for w in 16 3; do
+    mkdir -p "$T/ev$w"
+    VERIF_DIR="$T/ev$w" VERIF_SEED=77 VERIF_RUNS=$runs VERIF_WORKERS=$w $BIN run "$id" quick > "$T/out" 2>&1 || { echo "selftest: $id failed at $w workers"; tail -3 "$T/out"; rc=2; }
+    d=$(python3 -c "import json,sys;print(json.load(open('$T/ev$w/evidence/$id.json'))['coverage']['batch_digest'])" 2>/dev/null)
+    [ -z "$ref" ] && ref=$d
+    if [ -z "$d" ] || [ "$d" != "$ref" ]; then echo "DETERMINISM MISMATCH: $id batch digest '$d' at $w workers, '$ref' at 16"; rc=2; fi
+  done
+  echo "$id: batch digest $ref identical at 16 and 3 workers ($runs jobs)"
 done
 rm -rf "$T"
 exit $rc
